@@ -285,6 +285,9 @@ func (vc *VC) execFunc(fn *ssa.Function, args []Val, st *State, reach string, pa
 	}
 	fr.entryState = st
 	fr.run(st.clone(), reach)
+	if parent == nil && !pure && contract != nil {
+		vc.rootRets = fr.rets
+	}
 	// merge returns
 	if len(fr.rets) == 0 {
 		return nil, st, "false"
